@@ -1,7 +1,7 @@
 (* C04 — property theorems only.  Every theorem is closed by [exact] of a lemma
    proved in Proofs.v and followed by [Print Assumptions]. *)
 From Coq Require Import List ZArith Bool.
-From GZ Require Import C04.Model C04.Proofs.
+From GZ Require Import C04.Model C04.Proofs C04.Recover C04.RecoverProofs.
 Import ListNotations.
 Open Scope Z_scope.
 
@@ -595,4 +595,79 @@ Example ex_slot :
   wsst (wrun (winit w) [EH; ED KDeadline; ES BTimeout; EH; EH]) = OTimeout KDeadline /\
   wsst (wrun (winit w) [EH; ED KCancel; EH; ES BDone]) = ORet 0 77 /\
   wsst (wrun (winit (mkW [WWork] (0, 0) (WPanic 4))) [EH; EH; ED KCancel; ES BPanic]) = OPanic 4.
+Proof. vm_compute. repeat split. Qed.
+
+(* ================================================================== *)
+(* the RecoverHandler INSIDE the timeout middleware (rest/engine.go builds
+   Timeout -> Recover -> ... -> route handler; Recover.v)                 *)
+
+(* all_or_nothing_recover.  [rrun true] is the LTS in which every panic of the work
+   (panic(p), or the timeout writer's own "invalid WriteHeader code") is recovered in
+   the handler goroutine, answered by one more locked method call WriteHeader(500) on
+   the timeout writer, and followed by a normal return.  For every script and EVERY
+   schedule — the Done event and the select may fall before the panic, between the
+   panic and the recovery's WriteHeader, between that and the return, or after:
+   - ServeHTTP never re-raises a panic;
+   - the state is an [outcome] (all_or_nothing_flush) of a script the recovered work
+     amounts to: the script itself, or what it had executed when it panicked followed
+     by WriteHeader(500);
+   - when ServeHTTP answered through `done`, the response is the complete response of
+     a run [ex] of [rec_cut fl false script] — the independent description of the
+     recovered work (the script up to its first panic as [spec_panic] sees it, then
+     WriteHeader(500)); [ex] is all of it or a cut at a context check that saw Done. *)
+Theorem all_or_nothing_recover : forall fl h0 script sched,
+  let s := rrun true (init fl h0 script) sched in
+  (forall p, sst s <> SPanicRet p) /\
+  (exists script', rec_variant script script' /\ outcome fl h0 script' s) /\
+  (sst s = SDoneRet ->
+   exists ex, cut (rec_cut fl false script) ex (dk s) /\ spec_panic fl false ex = None /\
+              rw s = complete fl h0 ex).
+Proof. exact all_or_nothing_recover_lemma. Qed.
+Print Assumptions all_or_nothing_recover.
+
+(* returns_at_deadline_recover.  In every state the recovering LTS reaches with Done
+   fired and ServeHTTP still selecting — in particular right after an invalid status
+   code made WriteHeader panic, with the recovery's WriteHeader(500) still to come —
+   the timeout branch is enabled and answers in that one step, consuming no handler
+   action.  (The model takes every tw.mu-protected method as atomic: it holds for the
+   code as long as every path of those methods, panics included, releases the mutex;
+   the correspondence run observes a violation of that as a hang, see Pinned.v.) *)
+Theorem returns_at_deadline_recover : forall fl h0 script sched k,
+  let s := rrun true (init fl h0 script) sched in
+  dk s = Some k -> sst s = SWait ->
+  exists s', rstep true s (ES BTimeout) = Some (s', RNone) /\ sst s' = STimeoutRet k /\
+             rw s' = timeout_write k (rw s) /\ hst s' = hst s /\ hrest s' = hrest s.
+Proof. exact returns_at_deadline_recover_lemma. Qed.
+Print Assumptions returns_at_deadline_recover.
+
+(* the recovered work as the checker describes it never panics, and is the script itself
+   when the script does not panic *)
+Theorem recovered_work_is_safe : forall fl acts w,
+  spec_panic fl w (rec_cut fl w acts) = None /\
+  (spec_panic fl w acts = None -> rec_cut fl w acts = acts).
+Proof. exact rec_cut_safe_and_neutral. Qed.
+Print Assumptions recovered_work_is_safe.
+
+(* without a RecoverHandler in the chain the recovering LTS is the plain one *)
+Theorem recover_absent_is_plain : forall sched s, rrun false s sched = run s sched.
+Proof. exact rrun_plain. Qed.
+Print Assumptions recover_absent_is_plain.
+
+(* an invalid code as the FIRST status: recovered, the client gets the 500 *)
+Example ex_recover_bad_code :
+  let s := rrun true (init false [(1, [5])] [ASet 2 9; AWriteHeader 0; AWrite [200]]) [EH; EH; EH; EH; ES BDone] in
+  sst s = SDoneRet /\ rres (rw s) = Some (500, [(1, [5]); (2, [9])]) /\ rbody (rw s) = [] /\
+  rec_cut false false [ASet 2 9; AWriteHeader 0; AWrite [200]] = [ASet 2 9; AWriteHeader 500].
+Proof. vm_compute. repeat split. Qed.
+
+(* the deadline between the panic and the recovery's WriteHeader: the timeout reply, and the late 500 changes nothing *)
+Example ex_recover_deadline_between :
+  let s := rrun true (init false [] [AWriteHeader 999]) [EH; ED KDeadline; ES BTimeout; EH; EH] in
+  sst s = STimeoutRet KDeadline /\ rw s = timeout_resp false [] KDeadline /\ hst s = HDone.
+Proof. vm_compute. repeat split. Qed.
+
+(* an invalid code AFTER the timeout (nothing was recorded before): panics, is recovered, changes nothing *)
+Example ex_recover_after_timeout :
+  let s := rrun true (init false [] [AWrite [200]; AWriteHeader 600]) [ED KCancel; ES BTimeout; EH; EH; EH; EH] in
+  sst s = STimeoutRet KCancel /\ rw s = timeout_resp false [] KCancel /\ hst s = HDone.
 Proof. vm_compute. repeat split. Qed.
